@@ -1,0 +1,46 @@
+//! Scripted-service hooks (properties C11, C12, C14): the real `Service` event loop with the
+//! handler's channel ends held by the caller. See `service::verif_hooks`.
+pub use crate::handler::{HandlerIn, HandlerOut};
+pub use crate::kbucket::ConnectionDirection;
+pub use crate::node_info::{NodeAddress, NodeContact};
+pub use crate::rpc::{Message, Request, RequestBody, RequestId, Response, ResponseBody};
+pub use crate::service::verif_hooks::*;
+pub use crate::service::Pong;
+
+use crate::packet::{MessageNonce, Packet, PacketHeader, PacketKind, ProtocolIdentity};
+use enr::NodeId;
+
+/// The datagram a handler with an established session puts on the wire for `response`
+/// (`Session::encrypt_message` followed by `Packet::encode`): the message is RLP-encoded, sealed
+/// with AES-128-GCM under `key` (authenticated data = IV and header) and wrapped into a message
+/// packet from `src_id` whose header is masked for `dst_id`.
+pub fn response_datagram(
+    response: Response,
+    src_id: NodeId,
+    dst_id: NodeId,
+    key: &[u8; 16],
+    iv: u128,
+    message_nonce: MessageNonce,
+) -> Option<Vec<u8>> {
+    let header = PacketHeader {
+        message_nonce,
+        kind: PacketKind::Message { src_id },
+        protocol_identity: ProtocolIdentity::default(),
+    };
+    let mut authenticated_data = iv.to_be_bytes().to_vec();
+    authenticated_data.extend_from_slice(&header.encode());
+    let message = crate::handler::verif_hooks::toolkit_encrypt(
+        key,
+        message_nonce,
+        &response.encode(),
+        &authenticated_data,
+    )?;
+    Some(
+        Packet {
+            iv,
+            header,
+            message,
+        }
+        .encode(&dst_id),
+    )
+}
